@@ -705,10 +705,17 @@ class FilesWorld:
             # the property fixes what must be IN the target directory after a dump, not that nothing else may appear there:
             # additional NEW files under the target (a lock, a backup, a manifest) are counted, not reported
             inside = os.path.relpath(tgt_abs, root) + "/"
-            extra = [(p, how) for p, how in unexpected if p.startswith(inside) and how == "created"]
+            extra = [(p, how) for p, how in unexpected if p.startswith(inside) and how in ("created", "removed")]
             if extra:
                 stats["extra_new_files_in_target"] += len(extra)
                 unexpected = [x for x in unexpected if x not in extra]
+        if unexpected and not is_cli:
+            # through the API, files that appear besides the dump (a parser.out in the working directory, a log) are C14's
+            # "creates no files" business, not a disagreement between entry points: counted
+            stray = [(p, how) for p, how in unexpected if how == "created"]
+            if stray:
+                stats["files_without_dump_request_api"] += len(stray)
+                unexpected = [x for x in unexpected if x not in stray]
         if unexpected and not dumping and not is_cli:
             # an API call without a dump request that leaves files behind breaks C14's "creates no files" clause, not the
             # agreement between entry points that C19 is about (only the command's --no-dump is named here): counted
@@ -740,7 +747,7 @@ class FilesWorld:
         unexpected = sorted((p, how) for p, how in ch.items() if p not in allowed)
         if dumping and tgt_abs:
             inside = os.path.relpath(tgt_abs, root) + "/"
-            extra = [(p, how) for p, how in unexpected if p.startswith(inside) and how == "created"]
+            extra = [(p, how) for p, how in unexpected if p.startswith(inside) and how in ("created", "removed")]
             if extra:
                 stats["extra_new_files_in_target"] += len(extra)
                 unexpected = [x for x in unexpected if x not in extra]
